@@ -34,6 +34,29 @@ type faultRec struct {
 	Retry     string `json:"retry,omitempty"`
 	Normal    string `json:"normal,omitempty"`
 	ErrText   string `json:"err,omitempty"`
+	// for a failed call that changed the tree: is the size / the listing what it was before the call,
+	// what the fault-free call makes it, or something else
+	// C09 under faults: after the failed call the tree is persisted and the version is read back:
+	// "" not checked, "ok", or what is wrong with it
+	Persisted    string `json:"persisted,omitempty"`
+	PostSize     string `json:"post_size,omitempty"`
+	PostContents string `json:"post_contents,omitempty"`
+}
+
+func classify(before, normal, after string, field int) string {
+	b, n, a := strings.Split(before, ";"), strings.Split(normal, ";"), strings.Split(after, ";")
+	if field >= len(a) || field >= len(b) || field >= len(n) {
+		return "other"
+	}
+	switch {
+	case a[field] == n[field] && a[field] == b[field]:
+		return "both"
+	case a[field] == n[field]:
+		return "normal"
+	case a[field] == b[field]:
+		return "before"
+	}
+	return "other"
 }
 
 func treesOf(op string) []string {
@@ -61,6 +84,36 @@ func observe(w *runner.World, trees []string) string {
 		}
 	}
 	return sb.String()
+}
+
+// persistedCheck persists tree t as it is after a failed call, loads the returned root into a fresh
+// tree and compares the recorded size with the number of entries that can be reached
+func persistedCheck(w *runner.World, t string) string {
+	var ti int
+	fmt.Sscanf(t, "%d", &ti)
+	tr := w.GetTree(ti)
+	if tr == nil {
+		return ""
+	}
+	if r := w.Exec("mkroot " + t + " 9999"); r.Outcome != "ok" {
+		return "MakeRoot after the failed call: " + r.Outcome + " " + r.ErrText
+	}
+	root := w.GetRoot(9999)
+	if r := w.Exec(fmt.Sprintf("load 9999 9998 %d %d", tr.StoreID(), tr.Kind())); r.Outcome != "ok" {
+		return "LoadMast of the root persisted after the failed call: " + r.Outcome + " " + r.ErrText
+	}
+	it := w.Exec("iter 9998")
+	if it.Outcome != "ok" {
+		return "Iter of the version persisted after the failed call: " + it.Outcome + " " + it.ErrText
+	}
+	n := 0
+	if p := strings.TrimPrefix(it.Payload, "l:"); p != "" {
+		n = len(strings.Split(p, ","))
+	}
+	if uint64(n) != root.Size {
+		return fmt.Sprintf("the root persisted after the failed call records size %d but %d entries are reachable from it", root.Size, n)
+	}
+	return "ok"
 }
 
 func targeted(op string) bool {
@@ -122,6 +175,9 @@ func faultsMain(args []string) int {
 					rec := faultRec{Hist: hid, Index: i, Op: op, Kind: kind, Pos: p, Fired: fired, Outcome: r.Outcome,
 						Site: site, Unchanged: after == before, ErrText: r.ErrText}
 					if r.Outcome != "ok" {
+						if f0 := strings.Fields(op)[0]; opts["persistcheck"] == "1" && (f0 == "ins" || f0 == "del") {
+							rec.Persisted = persistedCheck(w, strings.Fields(op)[1])
+						}
 						retry := w.Exec(op)
 						retryAfter := observe(w, trees)
 						rs := retry.Outcome + " " + retry.Payload
@@ -131,6 +187,7 @@ func faultsMain(args []string) int {
 						}
 						if !rec.Unchanged {
 							rec.Before, rec.After = before, after
+							rec.PostSize, rec.PostContents = classify(before, normalAfter, after, 0), classify(before, normalAfter, after, 2)
 						}
 					} else {
 						rec.RetrySame = true
